@@ -74,9 +74,12 @@ MOS = [
 
 MOS.append(
     MO("O3.1/pinned", "HnswBackend::insert: normalize_in_place_if_needed and HnswVectorIndex::validate_vector both run, and succeed, before the WAL append (pins the pre-flight list the Kani harness O3.1/* replays)",
-       allof(only_via(H + "insert", WAL_APPEND, Arm(r"^discr\(try\(call (hnsw_backend::)?normalize_in_place_if_needed\)\)$", {"0"}, name="normalize_in_place_if_needed()? -> Ok")),
-             only_via(H + "insert", WAL_APPEND, Arm(r"^discr\(try\(call HnswVectorIndex::validate_vector\)\)$", {"0"}, name="index.validate_vector()? -> Ok")),
-             precedes(H + "insert", call(r"= (hnsw_backend::)?normalize_in_place_if_needed\(", name="normalize_in_place_if_needed"), call(r"= HnswVectorIndex::validate_vector\(", name="validate_vector"))),
+       allof(only_via_call(H + "insert", WAL_APPEND, call(r"= (hnsw_backend::)?normalize_in_place_if_needed\(", name="normalize_in_place_if_needed"),
+                           Arm(r"^discr\(try\(call (hnsw_backend::)?normalize_in_place_if_needed\)\)$", {"0"}, name="normalize_in_place_if_needed()? -> Ok")),
+             only_via_call(H + "insert", WAL_APPEND, call(r"= HnswVectorIndex::validate_vector\(", name="HnswVectorIndex::validate_vector"),
+                           Arm(r"^discr\(try\(call HnswVectorIndex::validate_vector\)\)$", {"0"}, name="index.validate_vector()? -> Ok"),
+                           why="a vector the index will refuse (e.g. all-zero after an overflowing normalisation) is logged first; the compensating Delete destroys the previous version after restart"),
+             lambda F: (FnCheck(F, H + "insert").precedes(call(r"= (hnsw_backend::)?normalize_in_place_if_needed\(", name="normalize_in_place_if_needed"), call(r"= HnswVectorIndex::validate_vector\(", name="validate_vector")) if FnCheck(F, H + "insert").count(call(r"= HnswVectorIndex::validate_vector\(", name="validate_vector")) else Result("holds", "validate_vector absent: reported by the ONLY_VIA obligation above"))),
        functions=[("hnsw_backend.rs", "insert")], role="preflight-weaker-than-index"))
 
 def rollback_args(F):
